@@ -471,7 +471,10 @@ def padField (front : Bool) (n : Nat) : Field → St → M (Field × St)
       | none => .error .dangling
       | some ob =>
         -- (model guard; and the refusal to pad a time in a GPS-only format)
-        if ob.kind != k || padRefused n ob then (if ob.kind != k then .error .unsupported else .error .value) else
+        -- (the refusal only arises when the empty epochs are really built: `insert` looks `a` up in the memo first, a
+        -- field whose array was already extended under another name is served from the memo and never padded)
+        if ob.kind != k || (padRefused n ob && (s.find o).isNone) then
+          (if ob.kind != k then .error .unsupported else .error .value) else
         let r : M (Nat × St) :=
           if k.isPlain then insertPlain o pos (List.replicate n (emptyRow k ob.cols)) s
           else if k.isDelta then
